@@ -193,7 +193,9 @@ func (e *MetaCDC) ReloadTask() {
 		e.collectionNames.data[uKey] = append(e.collectionNames.data[uKey], newCollectionNames...)
 		e.collectionNames.excludeData[uKey] = append(e.collectionNames.excludeData[uKey], taskInfo.ExcludeCollections...)
 		e.collectionNames.excludeData[uKey] = lo.Uniq(e.collectionNames.excludeData[uKey])
-		e.collectionNames.extraInfos[uKey] = taskInfo.ExtraInfo
+		e.collectionNames.extraInfos[uKey] = model.ExtraInfo{
+			EnableUserRole: e.collectionNames.extraInfos[uKey].EnableUserRole || taskInfo.ExtraInfo.EnableUserRole,
+		}
 		e.cdcTasks.Lock()
 		e.cdcTasks.data[taskInfo.TaskID] = taskInfo
 		e.cdcTasks.Unlock()
@@ -445,6 +447,9 @@ func (e *MetaCDC) Create(req *request.CreateRequest) (resp *request.CreateRespon
 		defer e.collectionNames.Unlock()
 		e.collectionNames.excludeData[uKey] = lo.Without(e.collectionNames.excludeData[uKey], excludeCollectionNames...)
 		e.collectionNames.data[uKey] = lo.Without(e.collectionNames.data[uKey], newCollectionNames...)
+		if req.ExtraInfo.EnableUserRole {
+			e.collectionNames.extraInfos[uKey] = model.ExtraInfo{}
+		}
 	}
 
 	defer func() {
@@ -1418,6 +1423,9 @@ func (e *MetaCDC) delete(taskID string) error {
 	e.collectionNames.Lock()
 	e.collectionNames.excludeData[uKey] = lo.Without(e.collectionNames.excludeData[uKey], info.ExcludeCollections...)
 	e.collectionNames.data[uKey] = lo.Without(e.collectionNames.data[uKey], collectionNames...)
+	if info.ExtraInfo.EnableUserRole {
+		e.collectionNames.extraInfos[uKey] = model.ExtraInfo{}
+	}
 	e.collectionNames.Unlock()
 
 	e.cdcTasks.Lock()
